@@ -248,6 +248,31 @@ def bounded(ck, big=False):
                 bad = int(np.argmax(~((d == rd) | (np.isnan(d) & np.isnan(rd))))) if d.shape == rd.shape else -1
                 fails.append({"obligation": "bounded.schedulers", "clause": "batch == [run(x) for x in batch] bit for bit, in order", "input": {"scheduler": sched, **kw, "events": n, "seed": ck.seed, "first_bad_index": bad},
                               "observed": {"batch": float(d[bad]) if bad >= 0 else str(d.shape), "one-at-a-time": float(rd[bad]) if bad >= 0 else str(rd.shape)}})
+        # small and boundary batch sizes, with a cloud model that matters for some events and a detector away from the reference orbit
+        marks = {float(b[3][0]), float(b[3][100])}  # the events that lead the first two partitions are completely hidden (cloud top above the track)
+
+        def cloud_model(lat, long):
+            if float(lat) in marks:
+                return 70.0
+            return 6.0 if lat > 0 else -np.inf
+
+        k33 = CphotAng(33.0)
+        for m_ in (1, 2, 3, 99, 100, 101, 201):
+            nev += m_
+            sub = [x[:m_].copy() for x in b]
+            want = [CphotAng(33.0).run(*[x[j] for x in sub], cloud_model) for j in range(m_)]
+            wd, wa = np.asarray([r[0] for r in want]), np.array([r[1] for r in want])
+            try:
+                with dask.config.set(scheduler="synchronous"):
+                    d, a = k33(*[x.copy() for x in sub], cloud_model)
+                d, a = np.asarray(d), np.asarray(a)
+                same = d.shape == wd.shape and np.array_equal(d, wd, equal_nan=True) and np.array_equal(a, wa, equal_nan=True)
+                obs = {"batch": d.tolist()[:4] if d.shape else "array of shape %s" % (d.shape,), "one-at-a-time": wd.tolist()[:4]}
+            except Exception as ex:
+                same, obs = False, "raised %r" % ex
+            if not same:
+                fails.append({"obligation": "bounded.batch_sizes", "clause": "a batch of any size (1, one partition, partition boundaries) with a cloud model == [run(x, cloud) for x in batch], bit for bit",
+                              "input": {"events": m_, "detector_altitude": 33.0, "cloud_model": "70 km for events 0 and 100, 6 km where lat > 0, none elsewhere", "seed": ck.seed}, "observed": obs})
         # a single failing event surfaces as an error of the batch call
 
         class Fail(Exception):
@@ -285,4 +310,4 @@ def run(ck):
     ck.add_file("nuspacesim/simulation/eas_optical/detector_geometry.py")
     kernel_frame(ck)
     call_order(ck)
-    ck.bounded_run("real schedulers", lambda: bounded(ck), design="230 (quick: synchronous, threads x 4) / 1050 (thorough: synchronous, threads x {2,16}, processes x 2) seeded events vs one-at-a-time, bit for bit; one failing event at position 0 / 117 / last of 230 under synchronous and threads")
+    ck.bounded_run("real schedulers", lambda: bounded(ck), design="230 (quick: synchronous, threads x 4) / 1050 (thorough: synchronous, threads x {2,16}, processes x 2) seeded events vs one-at-a-time, bit for bit; batches of 1 / 2 / 3 / 99 / 100 / 101 / 201 events with a cloud model at 33 km; one failing event at position 0 / 117 / last of 230 under synchronous and threads")
